@@ -259,6 +259,14 @@ def evaluate(case, ctx, substitute=False, only=None):
         from vf.core import innermost_frame
         ctx.fail("exception:score_samples", "%s: %s @ %s" % (type(e).__name__, str(e)[:160], innermost_frame(e)))
         return
+    if only is None and len(Q) >= 2:
+        try:
+            parts = np.r_[np.asarray(kde.score_samples(Q[:1])), np.asarray(kde.score_samples(Q[1:]))]
+            same = np.array_equal(np.isfinite(parts), np.isfinite(s))
+            ctx.true("row-independence", same and bool(np.all(np.abs(parts[np.isfinite(s)] - s[np.isfinite(s)]) <= 1e-12 * max(1.0, float(np.abs(s[np.isfinite(s)]).max()) if np.isfinite(s).any() else 1.0))),
+                     "a query scored alone differs from the same query scored in a batch")
+        except Exception as e:  # noqa: BLE001
+            ctx.fail("exception:score_samples(single row)", "%s: %s" % (type(e).__name__, str(e)[:160]))
     r, used, far, near = ref_score(kde, desc, ww, grid, Q, cell, lab, gw, ctx)
     fin = used & np.isfinite(r)
     sscale = max(1.0, float(np.abs(r[fin]).max())) if fin.any() else 1.0
